@@ -1,0 +1,54 @@
+//! Verification hooks, compiled only with `--cfg sdjwt_verif`: the crate-private tree functions of `utils`
+//! made callable for the function-level correspondence runs of the verification harness, and the in-file
+//! hooks of `issuer` and `decoding` re-exported. Nothing here adds behaviour.
+pub use crate::decoding::verif_hooks as decoding;
+pub use crate::issuer::verif_hooks as issuer;
+
+pub mod utils {
+    use crate::utils as u;
+    use crate::{Disclosure, DisclosurePath, Error, HashAlgorithm};
+    use serde_json::Value;
+
+    pub fn restore_disclosure(
+        claims: &mut Value,
+        disclosure: &Disclosure,
+        current_path: String,
+        disclosure_paths: &mut Vec<DisclosurePath>,
+        depth: usize,
+    ) -> Result<bool, Error> {
+        u::restore_disclosure(claims, disclosure, current_path, disclosure_paths, depth)
+    }
+
+    pub fn restore_disclosures(
+        claims: &mut Value,
+        disclosures: &[String],
+        disclosure_paths: &mut Vec<DisclosurePath>,
+        algorithm: HashAlgorithm,
+    ) -> Result<(), Error> {
+        u::restore_disclosures(claims, disclosures, disclosure_paths, algorithm)
+    }
+
+    pub fn remove_digests(claims: &mut Value) -> Result<(), Error> {
+        u::remove_digests(claims)
+    }
+
+    pub fn remove_all_digests(claims: &mut Value) -> Result<(), Error> {
+        u::remove_all_digests(claims)
+    }
+
+    pub fn sd_contains_digest(sd: &Value, digest: &str) -> Result<bool, Error> {
+        u::sd_contains_digest(sd, digest)
+    }
+
+    pub fn declared_hash_alg(claims: &Value) -> Result<HashAlgorithm, Error> {
+        u::declared_hash_alg(claims)
+    }
+
+    pub fn format_path(parent_path: &str, key: &str) -> String {
+        u::format_path(parent_path, key)
+    }
+
+    pub fn drop_kb(input: &str) -> String {
+        u::drop_kb(input)
+    }
+}
